@@ -32,7 +32,9 @@ IMPORTS = ('From Coq Require Import ZArith List String.\n'
            'From PyRTL Require Import Front.SliceC14 Front.Mux Front.Struct Front.C14Harness.\n'
            'Import ListNotations. Open Scope Z_scope. Open Scope string_scope.')
 COQ_TARGETS = ['theories/Front/C14Harness.vo']
-TRUSTED = ['py/checks/C14.py oracles: plain-Python bit-level reading of the docstrings of the helpers',
+PROPS_FILES = ['theories/Props/C14.v', 'theories/Props/C14Tie.v']
+TRUSTED = ['py/genfrag_C14.py: fragment locator + pyfrag expression translator (Gen/MuxRules.v)',
+           'py/checks/C14.py oracles: plain-Python bit-level reading of the docstrings of the helpers',
            'Front/SliceC14.v pyslice = Python slice semantics for step 1 (compared with list(range(n))[s:e] '
            'for every n <= 9 and every bound in {None,-n-2..n+2} on every run)']
 ASSUMPTIONS = ['bit_in, direction and every prioritized_mux select are 1-bit wires',
@@ -59,6 +61,10 @@ def s_coq(s, dw=None):
         return '(SC %d %d)' % (minw(s[1]) if dw is None else dw, s[1])
     if s[0] == 'S':
         return '(SS %d %d %d)' % (s[1], s[2], s[3])
+    if s[0] == 'P':       # component `path` of the instance of schema built from pool wire 0
+        return '(SP %s (SW 0) %s)' % (sch_coq(s[1]), nats(s[2]))
+    if s[0] == 'MSB':
+        return '(SMsb %s)' % s_coq(s[1])
     raise ValueError(s)
 
 
@@ -672,6 +678,45 @@ def cross_apply(c, P, t):
         return [pyrtl.select(P[2], P[1], t)]
     if op == 'barrel':
         return [barrel.barrel_shifter(t, P[1], P[2], P[3])]
+    if op in SHIFTS:
+        amount = c['k'] if 'k' in c else P[1]      # Python int amount, or a wire (barrel shifter)
+        return [SHIFTS[op](t, amount)]
+    raise ValueError(op)
+
+
+SHIFTS = {'sll': pyrtl.shift_left_logical, 'sla': pyrtl.shift_left_arithmetic,
+          'srl': pyrtl.shift_right_logical, 'sra': pyrtl.shift_right_arithmetic}
+
+
+def q_cross(c):
+    """the Coq side: the helper MODEL applied to the MODEL of the wrapped object (Front/Struct.v
+    slice_comp + path = what as_wires(instance / component) carries)"""
+    op = c['op']
+    m = c['m']
+    w = nats(c['ws'])
+    tgt = s_coq(('P', c['sch'], c['path']))
+    if op == 'bfu':
+        k = len(py_indices(m, c['s'], c['e']))
+        return 't_bfu %s %s %s %s (SS 1 0 %d) false' % (w, tgt, oz(c['s']), oz(c['e']), k)
+    if op == 'bfus':
+        return 't_bfus %s %s [((Some 0, Some 1), (SS 1 0 1)); ((Some %d, None), (SS 1 1 2))] false' % (w, tgt, m - 1)
+    if op == 'chop':
+        return 't_chop %s %s %s' % (w, tgt, nats(c['widths']))
+    if op == 'part':
+        return 't_part %s %s %d' % (w, tgt, c['size'])
+    if op == 'mbp':
+        return 't_mbp %s %s "%s"%%string' % (w, tgt, c['pat'])
+    if op == 'mux':
+        return 't_mux %s (SW 2) [%s; (SW 1)] None' % (w, tgt)
+    if op == 'select':
+        return 't_select %s (SW 2) (SW 1) %s' % (w, tgt)
+    if op == 'barrel':
+        return 't_barrel %s %s (SW 1) (SW 2) (SW 3)' % (w, tgt)
+    if op in SHIFTS and 'k' in c:
+        return 't_%s_i %s %s %d' % ({'sll': 'sll', 'sla': 'sll', 'srl': 'srl', 'sra': 'sra'}[op], w, tgt, c['k'])
+    if op in SHIFTS:      # wire amount: the barrel shifter with the documented bit_in / direction
+        bit_in = '(SMsb %s)' % tgt if op == 'sra' else '(SC 1 0)'
+        return 't_barrel %s %s %s (SC 1 %d) (SW 1)' % (w, tgt, bit_in, 1 if op in ('sll', 'sla') else 0)
     raise ValueError(op)
 
 
@@ -685,7 +730,23 @@ def b_cross(c, P):
         s = sch_kids(s)[i]
     node, lo = sch_node(c['sch'], c['path'])
     plain = P[0] if not c['path'] else P[0][lo:lo + sch_bw(node)]
-    return (cross_apply(c, P, t), cross_apply(c, P, plain))
+    try:
+        on_plain = cross_apply(c, P, plain)
+    except Exception as e_plain:       # the helper rejects this use on a plain wire: it must reject the wrapped one too
+        try:
+            cross_apply(c, P, t)
+        except Exception:
+            raise BothRaise(type(e_plain).__name__)
+        raise WrappedAccepts('raises %s on the plain wire but returns on the wrapped object' % type(e_plain).__name__)
+    return (cross_apply(c, P, t), on_plain)
+
+
+class BothRaise(Exception):
+    pass
+
+
+class WrappedAccepts(Exception):
+    pass
 
 
 def gen_cross(rng, tier):
@@ -720,6 +781,11 @@ def gen_cross(rng, tier):
             ops.append(dict(op='mux', ws=[n, n, 1]))
             ops.append(dict(op='select', ws=[n, n, 1]))
             ops.append(dict(op='barrel', ws=[n, 1, 1, 2]))
+            for sh in ('sll', 'srl', 'sra', 'sla'):
+                for k in sorted({0, 1, m - 1, m, m + 1}):     # Python int amounts (0 / >= width raise for some)
+                    if sh != 'sla' or k == 1:
+                        ops.append(dict(op=sh, k=k, ws=[n]))
+                ops.append(dict(op=sh, ws=[n, 2]))            # wire amount
             for o in ops:
                 out.append(dict(base, **o))
     return out
@@ -736,7 +802,7 @@ FAMS = {
     'match_bitpattern': (b_mbp, q_mbp, o_mbp), 'chop': (b_chop, q_chop, o_chop),
     'partition_wire': (b_part, q_part, o_part), 'struct_slice': (b_sslice, q_sslice, o_sslice),
     'struct_concat': (b_sconcat, q_sconcat, o_sconcat), 'wrapped': (b_wrap, None, o_wrap),
-    'cross': (b_cross, None, o_wrap),
+    'cross': (b_cross, q_cross, o_wrap),
 }
 
 
@@ -809,7 +875,11 @@ def run_group(args):
                        'expected': 'an error (documented misuse)'}
         else:
             r['oracle'] = 'OK'
-            if r['err'] is not None:
+            if r['err'] == 'BothRaise':
+                pass
+            elif r['err'] == 'WrappedAccepts':
+                bad = {'kind': 'accepts', 'msg': r['msg']}
+            elif r['err'] is not None:
                 bad = {'kind': 'raises', 'error': r['err'], 'msg': r['msg'], 'expected_first': first}
             else:
                 if c['fam'] in PAIRWISE:
@@ -1268,8 +1338,10 @@ def signature(c, bad):
         return 'bitfield_update:int-newvalue-too-large-with-truncating-raises'
     if fam == 'cross':      # which helper mishandles which kind of wrapped object
         return 'cross:%s-on-%s' % ({'bfu': 'bitfield_update', 'bfus': 'bitfield_update_set', 'part': 'partition_wire',
-                                    'mbp': 'match_bitpattern', 'barrel': 'barrel_shifter'}.get(c['op'], c['op']),
-                                   c['target'])
+                                    'mbp': 'match_bitpattern', 'barrel': 'barrel_shifter',
+                                    'sll': 'shift_left_logical', 'sla': 'shift_left_arithmetic',
+                                    'srl': 'shift_right_logical', 'sra': 'shift_right_arithmetic'}.get(c['op'], c['op'])
+                                   + ('-int-amount' if 'k' in c else ''), c['target'])
     return '%s:%s' % (fam, bad['kind'])
 
 
@@ -1364,10 +1436,13 @@ def run_configs(ctx, cfgs):
         if FAMS[fam][1] is None or i not in model:
             continue
         m = model[i]
-        if fam == 'match_bitpattern':
+        if fam == 'match_bitpattern' or (fam == 'cross' and c['op'] == 'mbp'):
             mnames, m = m[0], m[1]
             if m is not None and [chr(x) for x in mnames] != names_mbp(c):
                 ctx.model_mismatch('match_bitpattern field names differ', dict(rep, model=mnames))
+        if fam in PAIRWISE and r['err'] is None:      # compare the results on the wrapped object only
+            k = r['split']
+            r = dict(r, widths=r['widths'][:k], tab=[row[:k] for row in r['tab']])
         if m is None:
             if r['err'] is None:
                 ctx.model_mismatch('%s: model raises, implementation returns' % fam, rep)
